@@ -118,6 +118,33 @@ type Driver struct {
 	Shrink  func(json.RawMessage) []json.RawMessage
 	OneShot bool // one OS process per scenario
 	Timeout time.Duration
+	// Ref derives the reference scenario of a scenario (same operations, no history). It is
+	// executed first, in a process of its own, and its output digests are handed to the
+	// scenario proper: state that a history leaves behind anywhere in the process shows as a
+	// difference even when every later operation in that process sees the same state.
+	Ref func(json.RawMessage) (json.RawMessage, bool)
+}
+
+// refDigests runs the reference scenario, if the world defines one for sc.
+func (o *Orch) refDigests(world string, sc json.RawMessage, uid int, timeout time.Duration) []string {
+	drv := drivers[world]
+	if drv.Ref == nil {
+		return nil
+	}
+	ref, ok := drv.Ref(sc)
+	if !ok {
+		return nil
+	}
+	w, err := startWorker(o.bin, uid, nil)
+	if err != nil {
+		return nil
+	}
+	defer w.Close()
+	out, died, timedOut, _ := w.Do(world, ref, false, timeout)
+	if died || timedOut || out == nil || out.Harness != "" {
+		return nil
+	}
+	return out.Digests
 }
 
 var drivers = map[string]*Driver{}
@@ -220,7 +247,7 @@ func (o *Orch) runLeg(prop string, leg Leg, baseSeed uint64, count int, deadline
 						agg.Add(legName, prop, &simkit.Outcome{Harness: "start worker: " + err.Error()}, sc.JSON, sc.UID)
 						return
 					}
-					out, died, timedOut, stderr := w.Do(leg.World, sc.JSON, false, drv.Timeout)
+					out, died, timedOut, stderr := w.Do(leg.World, sc.JSON, false, drv.Timeout, o.refDigests(leg.World, sc.JSON, sc.UID, drv.Timeout)...)
 					if drv.OneShot {
 						w.Close()
 					}
@@ -250,7 +277,7 @@ func (o *Orch) runOne(world string, sc json.RawMessage, uid int, events bool) (o
 	defer w.Close()
 	// solo runs (confirmation, shrinking, replay) get twice the budget of batch runs, so that a
 	// machine that was merely busy during the batch does not turn into a hang verdict
-	return w.Do(world, sc, events, 2*drv.Timeout)
+	return w.Do(world, sc, events, 2*drv.Timeout, o.refDigests(world, sc, uid, 2*drv.Timeout)...)
 }
 
 func scenUID(sc json.RawMessage) int {
